@@ -9,7 +9,7 @@ LEVEL = "proof"
 MANIFEST = {
     "technique": "Coq proof over a hand-written Gallina model of aac.AudioSpecificConfig / aac.ADTSHeader codecs (bit lists) "
                  "+ complete enumeration of the finite domain on both sides + differential correspondence (extracted OCaml vs Go)",
-    "level_text": "Theorems (coq/c18/C18Theorems.v, 39, all closed under the global context): DecodeAudioSpecificConfig(Encode(c)) = c for every canonical configuration "
+    "level_text": "Theorems (coq/c18/C18Theorems.v, 45, all closed under the global context): DecodeAudioSpecificConfig(Encode(c)) = c for every canonical configuration "
                   "(object types 2/5/29, 16 channel configurations, every frequency 0..2^24-1 incl. the 13 table values; general "
                   "bit-level proof) and again by complete enumeration of the table part inside Coq; the two frequency tables are "
                   "mutually inverse; DecodeADTSHeader(Encode(h)) = (h, 0) for all profiles 1..4, 16 frequency indices, 8 channel "
@@ -38,7 +38,18 @@ MANIFEST = {
                   "depth and on the descriptor lists); the configuration carried as DecoderSpecificInfo by any such esds is read back "
                   "(C18_esds_config_roundtrip) and the esds SetAACDescriptor builds is one of them (C18_set_aac_esds_general). Explored "
                   "only: the decoders on malformed descriptors (correspondence: mutated/truncated/random inputs, 0 skipped at descriptor "
-                  "level) and decode -> re-encode = identity on generated well-formed esds shapes (search). On the implementation the complete domain is enumerated on every run "
+                  "level) and decode -> re-encode = identity on generated well-formed esds shapes (search). DECODER RANGE (round 4, coq/c18/C18RangeProofs.v): the "
+                  "well-formedness hypotheses of the round-trip theorems are proved to be invariants of the decoders instead of being assumed: "
+                  "every configuration DecodeAudioSpecificConfig returns, on ANY input, is canonical (C18_decode_asc_canonical), hence is "
+                  "encoded by Encode and read back as itself (C18_decode_asc_reencode: decode;encode;decode = decode, no hypothesis), and "
+                  "canonical is exactly the decoder's range (C18_canonical_is_decoder_range); every header DecodeADTSHeader returns that is "
+                  "MPEG-4, CRC-less and announces a frame >= 7 bytes is adts_canonical and re-encodes to bytes read back as itself at offset "
+                  "0 (C18_decode_adts_canonical, C18_decode_adts_reencode); the frame-length guard is sharp (C18_decode_adts_short_frame_wraps: "
+                  "frame length 0 is accepted as PayloadLength 65529; malformed input, outside the property). The hypotheses are also "
+                  "EVALUATED on what the real decoders returned for the inputs of the run (AR/HR correspondence lines: decode -> Encode -> "
+                  "decode on the real code against the model; evidence: hypotheses_on_run_inputs) and the search demands the round trip "
+                  "of every decoder result on the real code (all 2-byte inputs + field-wise generated foreign encodings). "
+                  "On the implementation the complete domain is enumerated on every run "
                   "(exhaustive: true): all table configurations, all 16 x 8 x 8185 ADTS headers, every junk length 0..187.",
     "level_note": "Trusted: Coq kernel, extraction (ExtrOcamlBasic), the OCaml/Go glue, the C13Model transcription of bits.Reader/bits.Writer "
                   "(the bit-list reading used here is proved equivalent to it; C13Model itself is tied to the code by correspondence, here and in C13). Explicit 24-bit frequencies are covered by the general proof and "
@@ -137,9 +148,33 @@ def run(ctx):
                              "all truncations of every fourth; %d descriptors through DecodeDescriptor with varying maxNrBytes; "
                              "every first / second / flag byte 0..255 on fixed skeletons; %d random strings: decoded value, GetPos, "
                              "AccError and the re-encoded bytes compared" % (2 * n, 4 * n, n),
+                             "decoder range (AR/HR): DecodeAudioSpecificConfig on every 1-byte input, %s 2-byte input, %d configurations laid "
+                             "out field by field as a foreign encoder may (reserved indices, table values through the 24-bit escape, wrong inner "
+                             "object type, trailing bits, truncated), a stride of the table encodings; DecodeADTSHeader on frame lengths 0..10/16/"
+                             "4096/8190/8191 x 4 sync variants, %d junk+sync+steered header strings, %d junk+encoded headers: result, Encode of "
+                             "the result, decoder again" % ("every" if thorough else "a stride of the", 4 * n, 4 * n, n),
                              "streams: %d x (1..4 configurations into one writer, k DecodeAudioSpecificConfig calls on one reader with "
                              "bytes-left after each), %d malformed streams; the same for junk+ADTS headers" % (n, n)],
     }
+    # hypotheses of the round-trip theorems evaluated on what the real decoders returned in this run (AR / HR lines:
+    # the driver answers "OK <id> hyp=1|0|-"; an accepted result outside the theorem's domain where the theorem says
+    # it cannot be is a MISMATCH)
+    hyp = {"AR": {"1": 0, "0": 0, "-": 0}, "HR": {"1": 0, "0": 0, "-": 0}}
+    for l in res:
+        p = l.split(" ")
+        if len(p) == 3 and p[0] == "OK" and p[2].startswith("hyp="):
+            hyp["AR" if p[1].startswith("ar") else "HR"][p[2][4:]] += 1
+    ctx.notes["hypotheses_on_run_inputs"] = {
+        "C18_asc_roundtrip / C18_decode_asc_canonical (canonical holds of the configuration the real decoder returned)":
+            {"decoder_accepted_and_hypothesis_holds": hyp["AR"]["1"], "decoder_rejected": hyp["AR"]["-"],
+             "decoder_accepted_hypothesis_fails (would be a mismatch)": hyp["AR"]["0"]},
+        "C18_adts_roundtrip / C18_decode_adts_canonical (id 0, header length 7, payload <= 8184 => adts_canonical)":
+            {"decoder_accepted_and_hypothesis_holds": hyp["HR"]["1"],
+             "decoder_accepted_outside_guard (MPEG-2 id / CRC / frame length < 7: theorem does not apply)": hyp["HR"]["0"],
+             "decoder_rejected": hyp["HR"]["-"]},
+    }
+    ctx.cov["samples"] += [l[:300] for l in lines if l.startswith("AR\t") and "|" in l][:1] \
+        + [l[:300] for l in lines if l.startswith("HR\t") and "|" in l][:1]
     ctx.cov["samples"] += [l[:300] for l in lines[5000:5002]] + [l[:300] for l in lines if l.startswith("HX\t")][:1] \
         + [l[:300] for l in lines if l.startswith("HD\t")][700:702] + [l[:300] for l in lines[-2:]]
     ctx.log("correspondence: %d case lines (+%d headers in range lines), %d mismatches" % (len(lines), hx_headers, len(mism)))
@@ -160,6 +195,9 @@ def run(ctx):
         elif f[0] == "EVALS":
             ctx.cov["evaluations"] += int(f[1])
             ctx.notes["search_evaluations"] = int(f[1])
+        elif f[0] == "RANGE":
+            ctx.notes["search_decoder_range"] = {"configurations_accepted_by_the_real_decoder_and_round_tripped": int(f[1]),
+                                                 "headers_accepted_within_guard_and_round_tripped": int(f[2])}
         elif f[0] == "DISTINCT":
             ctx.cov["distinct_nontrivial"] += int(f[1])
             ctx.notes["search_distinct_inputs"] = int(f[1])
@@ -168,9 +206,11 @@ def run(ctx):
     by_sig = {}
     for f in fails:
         by_sig.setdefault((f[1], f[2]), []).append(f)
+    new_failing = 0   # failing inputs that are not recorded known findings
     for (site, klass), fl in sorted(by_sig.items()):
-        ctx.failing_input(site, klass, fl[0][3], fl[0][4], extra={"failing_inputs_with_this_signature": len(fl),
-                                                                   "more_witnesses": [x[3] for x in fl[1:6]]})
+        if ctx.failing_input(site, klass, fl[0][3], fl[0][4], extra={"failing_inputs_with_this_signature": len(fl),
+                                                                      "more_witnesses": [x[3] for x in fl[1:6]]}):
+            new_failing += 1
     ctx.notes["failing_inputs_by_signature"] = {"%s/%s" % k: len(v) for k, v in by_sig.items()}
     ctx.log("search: %d evaluations, %d failing inputs" % (ctx.notes.get("search_evaluations", 0), len(fails)))
     ctx.notes["hygiene_oracles"] = (
@@ -191,7 +231,9 @@ def run(ctx):
          else "; explicit 24-bit frequencies are sampled in the quick tier (complete in the thorough tier)") +
         ". model (Coq): general theorems over the whole domain + vm_compute enumeration of the table configurations and of the "
         "ADTS index x channel x profile grid. correspondence: the same complete ADTS domain through range hashes.")
-    if mism and not fails:
+    # a model/implementation disagreement is reported unless a NEW failing input already explains the alarm (the recorded
+    # known findings F1/F2 fail on every run: they must not hide a mismatch - they did, until round 4)
+    if mism and not new_failing:
         by_id = {}
         for l in lines:
             p = l.split("\t")
@@ -210,7 +252,9 @@ def run(ctx):
                        "DecodeBox / DecodeBoxSR / the decoded init segment after the whole history gives its own configuration and every "
                        "encode of an entry over time gives the same bytes; configurations and headers streamed through one writer/reader; "
                        "any generated well-formed esds shape around a configuration: DecodeESDescriptor / DecodeBox / DecodeBoxSR / the mp4a "
-                       "entry around it give the configuration back and re-encode to the same bytes" % n)
+                       "entry around it give the configuration back and re-encode to the same bytes; decoder range: every configuration / guarded header the "
+                       "real decoders return on all 2-byte inputs and on generated foreign encodings must round-trip through Encode and the "
+                       "decoder, offsets must be the first sync word" % n)
 
 
 def replay(ctx, path):
